@@ -8,7 +8,7 @@ import IstioModel.C13.ConcTheorems
 ClusterLoadAssignment of a cluster are exactly the members (`member`: port, subset, health,
 discoverability, visibility, ...) of the *latest* report of every registry whose shard is read.
 `served_endpoints_exact_concurrent`: the same for the repaired code after any complete concurrent
-run, with "latest" taken in the commit order.
+run, with "latest" taken in the commit order (`Cfg.log`).
 -/
 namespace IstioModel.C13
 
@@ -203,16 +203,18 @@ theorem served_endpoints_exact (ops : List Op) (b : Builder) (k : Key) (gs : Lis
         · simpa [member, Bool.and_comm] using hm
 
 /-- **served_endpoints_exact (concurrent runs of the repaired code).** After any complete
-    concurrent run, the same holds with the latest reports taken in the commit order of the
-    operations - a permutation of the operations that respects real time. -/
+    concurrent run, the same holds with the latest reports taken in the **commit order** of the
+    operations (`Cfg.log`), which is a permutation of the operations and respects real time
+    (`commit_order_respects_real_time`). -/
 theorem served_endpoints_exact_concurrent (ops : List Op) (sched : List Nat) (b : Builder) (k : Key)
     (gs : List Group) (hd : (crun true (initCfg ops) sched).allDone = true)
-    (h : buildCLA b ((crun true (initCfg ops) sched).heap.index k) = some gs) (e : Ep) :
-    ∃ order : List Op, order.Perm ops ∧
-      (e ∈ gs.flatMap (·.eps) ↔
-        ∃ sk eps, latestReports order k sk = some eps ∧ shardRead b sk = true ∧ e ∈ eps ∧ member b e = true) := by
-  obtain ⟨order, hperm, heq⟩ := index_linearizable ops sched hd
+    (h : buildCLA b ((crun true (initCfg ops) sched).heap.index k) = some gs) :
+    (crun true (initCfg ops) sched).log.Perm ops ∧
+    ∀ e : Ep, e ∈ gs.flatMap (·.eps) ↔
+        ∃ sk eps, latestReports (crun true (initCfg ops) sched).log k sk = some eps ∧
+          shardRead b sk = true ∧ e ∈ eps ∧ member b e = true := by
+  obtain ⟨hperm, heq⟩ := index_linearizable ops sched hd
   rw [heq] at h
-  exact ⟨order, hperm, served_endpoints_exact order b k gs h e⟩
+  exact ⟨hperm, fun e => served_endpoints_exact _ b k gs h e⟩
 
 end IstioModel.C13
